@@ -14,11 +14,15 @@ int main (int argc, char** argv)
   symx::init ("C11", argc > 1 ? argv[1] : ".");
 #define BIN(NAME, EXPR) fn (NAME, [] { E x = est_in ("x"), y = est_in ("y"); out_est ("r", EXPR); });
 #define UN(NAME, EXPR)  fn (NAME, [] { E x = est_in ("x"); out_est ("r", EXPR); });
-  BIN ("e_add", x + y) BIN ("e_sub", x - y) BIN ("e_mul", x * y) BIN ("e_div", x / y)
+  BIN ("e_add", x + y) BIN ("e_sub", x - y) BIN ("e_mul", x * y)
+  fn ("e_div", [] { E x = est_in ("x"), y = est_in ("y"); E r = x / y; out_est ("r", r);
+    if (!symbolic) expect ("quotient variance", r.var, x.var/(y.val*y.val) + x.val*x.val*y.var/(y.val*y.val*y.val*y.val)); });
   UN ("e_neg", -x) UN ("e_inverse", x.inverse ())
   UN ("e_exp", exp (x)) UN ("e_log", log (x)) UN ("e_sqrt", sqrt (x)) UN ("e_sin", sin (x)) UN ("e_cos", cos (x))
   UN ("e_acos", acos (x)) UN ("e_atan", atan (x)) UN ("e_sinh", sinh (x)) UN ("e_cosh", cosh (x)) UN ("e_atanh", atanh (x))
-  BIN ("e_atan2", atan2 (x, y)) BIN ("e_copysign", copysign (x, y))
+  fn ("e_atan2", [] { E x = est_in ("x", -1.5, 1.5), y = est_in ("y", 0.2, 1.5); E r = atan2 (x, y); out_est ("r", r);
+    if (!symbolic) { double h = x.val*x.val + y.val*y.val; expect ("atan2 variance = (c/h)^2 var_s + (s/h)^2 var_c", r.var, (y.val/h)*(y.val/h)*x.var + (x.val/h)*(x.val/h)*y.var); } });
+  BIN ("e_copysign", copysign (x, y))
   // product of complex estimates (independent real and imaginary parts)
   fn ("e_cmul", [] { E a = est_in ("a"), b = est_in ("b"), c = est_in ("c"), d = est_in ("d");
     std::complex<E> z (a, b), w (c, d); std::complex<E> p = z * w;
